@@ -56,6 +56,30 @@ def run(tier, pid='C08'):
             nsteps += s
             if kind == 'extended' and k == 2:
                 chk.sample({'random_history_prefix': [(c['h']['kind'], c['h']['zone'], c['op'], c['arg']) for c in hs[0][:6]]})
+    # all ordered pairs of cached-year states, every zone of both databases: the edge Query(B) from "cached = A" of ZoneProc
+    # (HistoryIndependent) instantiated for every zone x every (A, B) in 2000..2049 (+ out-of-range A); table and answers
+    # of the long-lived processor against a never-used one in zero-filled memory
+    pd = common.build_binary('pairdrv', ['pairdrv.cpp'], 'opt')
+    npairs = npc = 0
+    step = 5 if tier == 'quick' else 1
+
+    def prun(a):
+        rc, out_, err, _ = common.run_cmd([pd, a[0], str(a[1]), str(a[2]), '2000', '2049', str(step)], timeout=6000)
+        return a, rc, out_, err
+    import json as _json
+    jobs = [(kind, i, min(i + 8, len(zidx[kind]))) for kind in ('extended', 'basic') for i in range(0, len(zidx[kind]), 8)]
+    for a, rc, out_, err in common.tmap(prun, jobs):
+        recs = [_json.loads(l) for l in out_.splitlines() if l.startswith('{')]
+        if rc != 0 or not recs or 'done' not in recs[-1]:
+            chk.violation('pairs:%s:crash:%d-%d' % a, 'year-pair sweep crashed rc=%s: %s' % (rc, err[-600:]), {'args': list(a)})
+            continue
+        npairs += recs[-1]['pairs']
+        npc += recs[-1]['calls']
+        for r in recs[:-1]:
+            chk.violation('pairs:%s:%s:%d:%s' % (a[0], r['zone'], r['B'], r['kind']),
+                          '%s %s: after serving year %d, the processor asked about year %d %s %s; a never-used processor %s' % (
+                              a[0], r['zone'], r['A'], r['B'], 'holds the table' if r['kind'] == 'table' else 'answers (utc/dst/abbrev/local) at t=%s' % r.get('t'), r['got'][:300], r['fresh'][:300]), r)
+    chk.add(year_pairs_checked=npairs, year_pair_calls=npc)
     # the Python reference implementation keeps a per-year cache too (ZoneSpecifier.init_for_year): reused object vs fresh object
     from . import C04
     pyn = 0
@@ -71,6 +95,6 @@ def run(tier, pid='C08'):
     chk.add(python_zone_specifier_calls=pyn)
     chk.add(states=st, transitions=tr, traces_validated_against_impl=ntr + nscripts, model_edges_replayed=nscripts,
             random_histories=ntr, random_histories_accepted=acc, real_calls_compared_with_fresh_time_zone=nsteps,
-            rule='every transition of the ZoneProc model graph (configs %s) replayed in the ASan+UBSan build of the real classes for Basic and Extended; seeded random histories (K=1..4, 3-6 zones, in/out-of-range and Jan-1 arguments) validated by ZoneProc_Trace' % [c[0] for c in configs])
+            rule='every transition of the ZoneProc model graph (configs %s) replayed in the ASan+UBSan build of the real classes for Basic and Extended; seeded random histories (K=1..4, 3-6 zones, in/out-of-range and Jan-1 arguments) validated by ZoneProc_Trace; every zone of zonedb/zonedbx x every ordered pair of years 2000..2049 (+ out-of-range years): per-year table and answers vs a never-used processor' % [c[0] for c in configs])
     chk.assume('hostshim; private state read with a "#define private public" include in the driver only; sanitizers (ASan, UBSan) as monitors for crashes and undefined behaviour')
     return chk.finish()
